@@ -71,7 +71,7 @@ def base_name(ty):
 
 
 class Program:
-    def __init__(self, crates, hooks=True, redump=True):
+    def __init__(self, crates, hooks=True, redump=True, harness=False):
         self.bodies = {}
         self.by_last = {}       # last segment -> [Body]
         self.closures = {}      # span string -> Body
@@ -80,6 +80,7 @@ class Program:
         self.enums = {}         # enum base name -> [variant names]
         self.dump_times = {}
         self.files = []
+        self.allocs = {}
         for c in crates:
             if redump:
                 p, dt = dump_mir(c, hooks)
@@ -90,7 +91,20 @@ class Program:
             for b in parse.parse_file(p):
                 b.crate = c
                 self.add(b)
+            for m in re.finditer(r"^(alloc\d+) \(static: ([\w:]+),", open(p, errors="replace").read(), re.M):
+                self.allocs[(c, m.group(1))] = m.group(2)
+                self.allocs[m.group(1)] = m.group(2)
             self.scan_enums(os.path.join(REPO, c, "src"))
+        if harness:
+            # scenario programs written in Rust (/verif/mirharness): only their MIR is used
+            hp = os.path.join(MIRDIR, "mirharness.mir")
+            if redump:
+                r = subprocess.run([os.path.join(VERIF, "tools", "mirdump_path.sh"), os.path.join(VERIF, "mirharness"), "mirharness"], capture_output=True, text=True)
+                if r.returncode != 0:
+                    raise RuntimeError("MIR dump of the scenario harness failed: " + open(os.path.join(MIRDIR, "mirharness.err")).read()[-2000:])
+            for b in parse.parse_file(hp):
+                b.crate = "mirharness"
+                self.add(b)
         self.enums.setdefault("Option", ["None", "Some"])
         self.enums.setdefault("Result", ["Ok", "Err"])
         self.enums.setdefault("Ordering", ["Relaxed", "Release", "Acquire", "AcqRel", "SeqCst"])
